@@ -361,13 +361,7 @@ impl<'a> Ctx<'a> {
                             self.optional -= 1;
                         }
                         Some(pk) => match self.eval(val, v, &push(loc.clone(), Step::Key(k.clone()))) {
-                            Some(x) => {
-                                if let Some(e) = res.iter_mut().find(|(k2, _)| *k2 == pk) {
-                                    e.1 = x;
-                                } else {
-                                    res.push((pk, x));
-                                }
-                            }
+                            Some(x) => res.push((pk, x)),
                             None => ok = false,
                         },
                     }
@@ -375,8 +369,17 @@ impl<'a> Ctx<'a> {
                 if !ok {
                     return None;
                 }
+                // keyed by the parsed key; of entries that parse to the same key the last one stays
+                // (such payloads are compared on status and reports only, see has_colliding_map_keys)
                 res.sort_by(|a, b| a.0.cmp(&b.0));
-                Some(Doc::Obj(res))
+                let mut dedup: Vec<(String, Doc)> = Vec::with_capacity(res.len());
+                for e in res {
+                    match dedup.last_mut() {
+                        Some(l) if l.0 == e.0 => *l = e,
+                        _ => dedup.push(e),
+                    }
+                }
+                Some(Doc::Obj(dedup))
             }
             Ty::Cs(k) => {
                 let Doc::Str(s) = d else {
@@ -707,6 +710,87 @@ pub fn match_multiset<T: PartialEq + std::fmt::Debug>(
     }
     if let Some(r) = req.first() {
         return Err(format!("expected {what} did not happen: {r:?}"));
+    }
+    Ok(())
+}
+
+/// Start-up self-check of the interpreter against outcomes *documented* in the
+/// book and pinned by the repository's own tests (a mismatch is a harness
+/// error, exit 2 — never a verdict).
+pub fn self_check() -> Result<(), String> {
+    use mc_desc::catalogue::{tagged_enum, unit_enum};
+    let mut cat = Catalogue::default();
+    // book/attributes/container.md: rename_all = camelCase
+    assert_eq!(camel("attributes_to_retrieve"), "attributesToRetrieve");
+    assert_eq!(camel("my__field"), "myField");
+    assert_eq!(camel("_lead"), "lead");
+    assert_eq!(camel("MyField"), "myField");
+    let mut s = StructSpec::plain(vec![FieldSpec::plain("query", p(sc(Scalar::Str))), FieldSpec::plain("attributes_to_retrieve", p(vec_of(p(sc(Scalar::Str)))))]);
+    s.rename_all = Some(RenameAll::Camel);
+    let i = cat.add(Item::Struct(s));
+    let r = reference(&cat, &p(Ty::Item(i)), &Doc::parse(r#"{"query":"doggo","attributesToRetrieve":["age","name"]}"#));
+    if r.value.as_ref().map(|d| d.canonical()) != Some(Doc::parse(r#"{"query":"doggo","attributes_to_retrieve":["age","name"]}"#)) {
+        return Err(format!("book: rename_all = camelCase example: {:?}", r.value));
+    }
+    // book: deny_unknown_fields → Unknown field `doggo`: expected one of `query`
+    let mut s = StructSpec::plain(vec![FieldSpec::plain("query", p(sc(Scalar::Str)))]);
+    s.deny = Deny::Default;
+    let i = cat.add(Item::Struct(s));
+    let r = reference(&cat, &p(Ty::Item(i)), &Doc::parse(r#"{"query":"doggo","doggo":"bork"}"#));
+    if r.required != vec![Sig::UnknownKey { loc: vec![], key: "doggo".into(), accepted: vec!["query".into()] }] {
+        return Err(format!("book: deny_unknown_fields example: {:?}", r.required));
+    }
+    // tests/attributes/skip.rs: a skipped field keeps its default and its name is unknown under deny
+    let mut s = StructSpec::plain(vec![
+        FieldSpec::plain("doggo", p(sc(Scalar::Str))),
+        FieldSpec { skip: true, default: DefaultSpec::Expr, ..FieldSpec::plain("catto", pu8()) },
+    ]);
+    s.deny = Deny::Default;
+    let i = cat.add(Item::Struct(s));
+    let r = reference(&cat, &p(Ty::Item(i)), &Doc::parse(r#"{"doggo":"bork","catto":3}"#));
+    if r.required != vec![Sig::UnknownKey { loc: vec![], key: "catto".into(), accepted: vec!["doggo".into()] }] {
+        return Err(format!("tests: skip + deny_unknown_fields: {:?}", r.required));
+    }
+    let r = reference(&cat, &p(Ty::Item(i)), &Doc::parse(r#"{"doggo":"bork"}"#));
+    if r.value.as_ref().map(|d| d.canonical()) != Some(Doc::parse(r#"{"doggo":"bork","catto":7}"#)) {
+        return Err(format!("tests: skip + default: {:?}", r.value));
+    }
+    // lib.rs docs: internally tagged enum; tests/attributes/tag.rs: rename_all renames variants only
+    let mut e = tagged_enum("type");
+    e.rename_all = Some(RenameAll::Camel);
+    let i = cat.add(Item::Enum(e));
+    let r = reference(&cat, &p(Ty::Item(i)), &Doc::parse(r#"{"type":"structV","fa_x":1,"fbCap":2}"#));
+    if r.value.as_ref().map(|d| d.canonical()) != Some(Doc::parse(r#"{"$variant":"StructV","fa_x":1,"fbCap":2}"#)) {
+        return Err(format!("tagged enum with rename_all: {:?} / {:?}", r.value, r.required));
+    }
+    let r = reference(&cat, &p(Ty::Item(i)), &Doc::parse(r#"{"fa_x":1}"#));
+    if r.required != vec![Sig::Missing { loc: vec![], field: "type".into() }] {
+        return Err(format!("missing tag: {:?}", r.required));
+    }
+    // errors/json.rs tests: unknown value lists every variant in declaration order
+    let i = cat.add(Item::Enum(unit_enum(3, Some(RenameAll::Lower), false)));
+    let r = reference(&cat, &p(Ty::Item(i)), &Doc::s("Alpha"));
+    if r.required != vec![Sig::UnknownValue { loc: vec![], value: "Alpha".into(), accepted: vec!["alpha".into(), "betatwo".into(), "gamma".into()] }] {
+        return Err(format!("unit enum lowercase: {:?}", r.required));
+    }
+    // tests/supported_value_types.rs: tuple arity, and number-range-error-messages.rs
+    let r = reference(&cat, &p(Ty::Tup(vec![pu8(), pu8()])), &Doc::parse("[1,2,3]"));
+    if r.required != vec![Sig::BadLen { loc: vec![], actual: Doc::parse("[1,2,3]"), expected: 2 }] {
+        return Err(format!("tuple arity: {:?}", r.required));
+    }
+    match scalar_expect(Scalar::U8, &Doc::Int(256)) {
+        ScalarExpect::Domain(Domain::TooLarge { received, bound }) if received == "256" && bound == "255" => {}
+        other => return Err(format!("u8 range: {other:?}")),
+    }
+    match scalar_expect(Scalar::I8, &Doc::Neg(-129)) {
+        ScalarExpect::Domain(Domain::TooSmall { received, bound }) if received == "-129" && bound == "-128" => {}
+        other => return Err(format!("i8 range: {other:?}")),
+    }
+    if !domain_message_ok(
+        &Domain::TooLarge { received: "256".into(), bound: "255".into() },
+        "value: `256` is too large to be deserialized, maximum value authorized is `255`",
+    ) {
+        return Err("documented range message rejected by the message predicate".into());
     }
     Ok(())
 }
